@@ -21,12 +21,15 @@
 #include "opentelemetry/sdk/common/global_log_handler.h"
 #include "opentelemetry/sdk/resource/resource.h"
 #include "opentelemetry/sdk/trace/batch_span_processor.h"
+#include "opentelemetry/sdk/trace/batch_span_processor_factory.h"
 #include "opentelemetry/sdk/trace/batch_span_processor_options.h"
+#include "opentelemetry/sdk/trace/batch_span_processor_runtime_options.h"
 #include "opentelemetry/sdk/trace/exporter.h"
 #include "opentelemetry/sdk/trace/processor.h"
 #include "opentelemetry/sdk/trace/random_id_generator.h"
 #include "opentelemetry/sdk/trace/samplers/always_on.h"
 #include "opentelemetry/sdk/trace/simple_processor.h"
+#include "opentelemetry/sdk/trace/simple_processor_factory.h"
 #include "opentelemetry/sdk/trace/span_data.h"
 #include "opentelemetry/sdk/trace/tracer_context_factory.h"
 #include "opentelemetry/sdk/trace/tracer_provider.h"
@@ -186,6 +189,30 @@ public:
   bool ForceFlush(std::chrono::microseconds) noexcept override { return true; }
   bool Shutdown(std::chrono::microseconds) noexcept override { return true; }
 };
+
+// the real processor of kind `s` / `b`: built through its constructor or through its factory (both Create overloads of the batch
+// factory), chosen by `how` (a hash of the case text plus the processor's index, so that a case replays the same way)
+static std::unique_ptr<trace_sdk::SpanProcessor> make_processor(char kind,
+                                                                std::unique_ptr<trace_sdk::SpanExporter> exp,
+                                                                size_t how)
+{
+  if (kind == 's')
+  {
+    if (how % 2 == 1) return trace_sdk::SimpleSpanProcessorFactory::Create(std::move(exp));
+    return std::unique_ptr<trace_sdk::SpanProcessor>(new trace_sdk::SimpleSpanProcessor(std::move(exp)));
+  }
+  trace_sdk::BatchSpanProcessorOptions o;
+  // exports when flushed; the timer is only a safety net: BatchSpanProcessor::ForceFlush re-polls with this period
+  // when its wake-up of the worker is lost (the worker was between its predicate check and its wait)
+  o.schedule_delay_millis = std::chrono::milliseconds(2000);
+  if (how % 3 == 1) return trace_sdk::BatchSpanProcessorFactory::Create(std::move(exp), o);
+  if (how % 3 == 2)
+  {
+    trace_sdk::BatchSpanProcessorRuntimeOptions ro;
+    return trace_sdk::BatchSpanProcessorFactory::Create(std::move(exp), o, ro);
+  }
+  return std::unique_ptr<trace_sdk::SpanProcessor>(new trace_sdk::BatchSpanProcessor(std::move(exp), o));
+}
 
 struct LinkArg
 {
@@ -418,6 +445,10 @@ static std::string handle(const std::vector<std::string> &toks)
     if (op.kind == "end" && op.n != 0) canon.ends.push_back(op.n);
 
   // ---- the pipeline
+  size_t case_hash = 1469598103u;  // FNV-style hash of the case text: selects constructor / factory per processor
+  for (auto &t : toks)
+    for (unsigned char ch : t) case_hash = (case_hash ^ ch) * 16777619u;
+  case_hash >>= 3;
   std::vector<std::shared_ptr<Log>> logs;
   std::vector<std::unique_ptr<trace_sdk::SpanProcessor>> processors;
   for (char k : procs)
@@ -425,16 +456,8 @@ static std::string handle(const std::vector<std::string> &toks)
     auto log = std::make_shared<Log>();
     std::unique_ptr<trace_sdk::SpanExporter> exp(new LogExporter(log, &canon));
     std::unique_ptr<trace_sdk::SpanProcessor> inner;
-    if (k == 's') inner.reset(new trace_sdk::SimpleSpanProcessor(std::move(exp)));
-    else if (k == 'z') inner.reset(new NoRecordable);
-    else
-    {
-      trace_sdk::BatchSpanProcessorOptions o;
-      // exports when flushed; the timer is only a safety net: BatchSpanProcessor::ForceFlush re-polls with this period
-      // when its wake-up of the worker is lost (the worker was between its predicate check and its wait)
-      o.schedule_delay_millis = std::chrono::milliseconds(2000);
-      inner.reset(new trace_sdk::BatchSpanProcessor(std::move(exp), o));
-    }
+    if (k == 'z') inner.reset(new NoRecordable);
+    else inner = make_processor(k, std::move(exp), case_hash + processors.size());
     processors.emplace_back(new Counting(std::move(inner), log));
     logs.push_back(log);
   }
@@ -641,13 +664,7 @@ static std::string handle(const std::vector<std::string> &toks)
       auto log = std::make_shared<Log>();
       std::unique_ptr<trace_sdk::SpanExporter> exp(new LogExporter(log, &canon));
       std::unique_ptr<trace_sdk::SpanProcessor> inner;
-      if (op.s1 == "s") inner.reset(new trace_sdk::SimpleSpanProcessor(std::move(exp)));
-      else
-      {
-        trace_sdk::BatchSpanProcessorOptions o;
-        o.schedule_delay_millis = std::chrono::milliseconds(2000);
-        inner.reset(new trace_sdk::BatchSpanProcessor(std::move(exp), o));
-      }
+      inner = make_processor(op.s1[0], std::move(exp), case_hash + logs.size());
       provider->AddProcessor(std::unique_ptr<trace_sdk::SpanProcessor>(new Counting(std::move(inner), log)));
       logs.push_back(log);
       late_kinds.push_back(op.s1[0]);
